@@ -423,4 +423,223 @@ Proof.
 Qed.
 
 End Loop.
+(* ================================================================ Part C *)
+Notation dsolver := (dsolver L).
+Notation reach := (DynDefs.reach L leqb).
+Notation vreach := (DynFunDefs.vreach L leqb oracle).
+Notation fresh := (DynDefs.fresh_fw L leqb).
+Notation run_ops := (Store.run_ops L leqb).
+Notation trailing := (DynDefs.trailing L).
+Notation pending := (DynDefs.pending L).
+Notation ev_apply := (DynDefs.ev_apply L leqb).
+
+(* ---- what a query of the preferred solver does *)
+Lemma pr_ds_query_full fuel (s : dsolver) l ps s' ans ps' :
+  pr_ds_query oracle L leqb fuel s l ps = Done (s', ans) ps' ->
+  (exists b X, is_skep L leqb (s_buf L s) l = (Some b, Some X) /\ s' = s /\ ans = (b, Some X) /\ ps' = ps) \/
+  (exists af buf ps1, update_encoding L leqb (s_af L s) (s_buf L s) ps = Done (af, buf) ps1 /\
+   forall e, b_enc L buf = XStd e ->
+     exists arg_id ps2 k result acc_b ref_b ext ps3 acc refused,
+       get_argument af l = Some arg_id /\ sess ps2 = sess ps1 /\
+       pr_loop oracle L fuel af e arg_id
+         {| k_cur := []; k_state := MInit; k_sel := zlit (1 + session_n_vars (sess ps1)) |} true None
+         (repeat false (1 + match max_argument_id L af with Some m => m | None => 0 end)) ps2
+         = Done (k, result, acc_b, ref_b, ext) ps3 /\
+       s' = pushed_state L s af buf (DSkep L acc refused ext) /\ ans = (result, ext)).
+Proof.
+  unfold pr_ds_query. intros E.
+  destruct (is_skep L leqb (s_buf L s) l) as [[b|] [X|]].
+  1:{ left. apply ret_Done in E. destruct E as [E <-]. apply pair_equal_spec in E. destruct E as [<- <-].
+      exists b, X. auto. }
+  all: right; apply bind_Done in E; destruct E as ([af buf] & ps1 & E1 & E2);
+    exists af, buf, ps1; (split; [exact E1|]); intros e He; rewrite He in E2;
+    apply bind_Done in E2; destruct E2 as (n & ps2 & E2 & E3); apply n_vars_sess in E2; destruct E2 as [-> Hs2];
+    apply bind_Done in E3; destruct E3 as (arg_id & ps3 & E3 & E4); apply opt_m_Done in E3; destruct E3 as [Hid ->];
+    apply bind_Done in E4; destruct E4 as ([[[[k result] acc_b] ref_b] X'] & ps4 & E4 & E5);
+    apply bind_Done in E5; destruct E5 as (acc & ps5 & E5 & E6); apply opt_m_Done in E5; destruct E5 as [_ ->];
+    apply bind_Done in E6; destruct E6 as (refused & ps6 & E6 & E7); apply opt_m_Done in E6; destruct E6 as [_ ->];
+    apply bind_Done in E7; destruct E7 as (u & ps7 & E7 & E8);
+    apply ret_Done in E8; destruct E8 as [E8 _]; apply pair_equal_spec in E8; destruct E8 as [<- <-];
+    exists arg_id, ps2, k, result, acc_b, ref_b, X', ps4, acc, refused; auto 6.
+Qed.
+
+Lemma dyn_query_pr_inv' thr fuel (s : dsolver) q cert l ps s' a ps' :
+  s_kind L s = KPr -> dyn_query oracle L leqb thr fuel s q cert l ps = Done (s', a) ps' ->
+  q = QDS /\ exists ans, a = (if cert then ans else (fst ans, None)) /\
+    pr_ds_query oracle L leqb fuel s l ps = Done (s', ans) ps'.
+Proof.
+  intros Hk E. unfold dyn_query in E. rewrite Hk in E. destruct q; try discriminate E. split; [reflexivity|].
+  apply bind_Done in E. destruct E as ([s1 ans] & ps1 & E1 & E2).
+  apply ret_Done in E2. destruct E2 as [E2 <-]. cbn [fst snd] in E2.
+  apply pair_equal_spec in E2. destruct E2 as [<- <-]. exists ans. auto.
+Qed.
+
+(* ---- the state in which the search starts *)
+Lemma query_ready_pr thr (s : dsolver) ps os af buf ps1 :
+  vreach thr KPr s ps os ->
+  update_encoding L leqb (s_af L s) (s_buf L s) ps = Done (af, buf) ps1 ->
+  exists e, b_enc L buf = XStd e /\ ready L af e ps1 /\ e_sem e = DPR /\
+    (forall x, live_var e x -> x <= session_n_vars (sess ps1)) /\
+    bounded (cls ps1) (session_n_vars (sess ps1)) /\
+    af = run_ops fresh os /\ b_buffer L buf = b_buffer L (s_buf L s) /\
+    b_next L buf = length (b_buffer L (s_buf L s)).
+Proof.
+  intros Hv Hue. assert (Hsk : std_kind KPr) by (unfold std_kind; tauto).
+  pose proof (vreach_reach L leqb _ _ _ _ _ _ Hv) as Hr.
+  pose proof (vreach_VI_pr L leqb leqb_spec _ _ _ _ _ Hv) as Hvi.
+  pose proof (std_kind_reach L leqb _ _ _ Hr Hsk) as Hstd.
+  destruct (b_enc L (s_buf L s)) as [e0|e0] eqn:Ee0; [|destruct Hstd].
+  destruct (reach_RS L leqb leqb_spec KPr s os ps e0 Hr Hsk Ee0 Hvi) as [Hrs Hu].
+  destruct (update_encoding_RS L leqb leqb_spec _ _ _ _ _ _ _ Ee0 Hrs Hu Hue) as (e & He & [Ht Hinv Hz Hbd (dv & atk & Hc)] & _).
+  exists e. split; [exact He|].
+  pose proof (enc_inv_reach L leqb _ _ _ Hr I) as Hei. pose proof (conv_reach L leqb _ _ _ Hr I) as Hcv.
+  pose proof (update_encoding_conv L leqb _ _ Hei Hcv _ _ _ Hue) as Hcv'. unfold conv_buf in Hcv'. cbn [snd] in Hcv'. rewrite He in Hcv'.
+  pose proof (update_encoding_sem L leqb _ _ _ Hei (sem_reach L leqb _ _ _ Hr Hsk) _ _ _ Hue) as Hs'.
+  unfold sem_buf in Hs'. cbn [snd] in Hs'. rewrite He in Hs'.
+  destruct (update_encoding_spec L leqb _ _ _ _ _ Hue) as (E1 & E2 & E3 & _). cbn [fst snd] in E1, E2, E3.
+  pose proof (reach_frame_inv L leqb _ _ _ Hr) as [Hkind _ Hsy Hsp].
+  pose proof (proj2 (tables_ok_split L af e) Ht) as Ht'.
+  split; [|split; [exact Hs'|split; [|split; [|split; [|auto]]]]].
+  - split; auto. exact (cinv_clause_inv L _ _ _ _ _ _ Hc Ht').
+  - exact (live_var_le L af e _ _ dv atk (sess ps1) Hc Ht' eq_refl Hbd).
+  - apply nvars_fresh. exact Hbd.
+  - rewrite E1. unfold DynDefs.synced in Hsy. unfold DynDefs.spec_fw in Hsp. rewrite Hkind in Hsy, Hsp. congruence.
+Qed.
+
+Lemma fresh_reachable_g os : GroundedProofs.reachable L leqb (run_ops fresh os).
+Proof. exists [], os. reflexivity. Qed.
+
+(* ---- a search that returns gives the right answer *)
+Lemma pr_search_correct fuel (af : fw) e ps1 ps2 l id k result acc_b ref_b ext ps3 os :
+  ready L af e ps1 -> e_sem e = DPR ->
+  (forall x, live_var e x -> x <= session_n_vars (sess ps1)) ->
+  bounded (cls ps1) (session_n_vars (sess ps1)) ->
+  af = run_ops fresh os -> get_argument af l = Some id -> sess ps2 = sess ps1 ->
+  pr_loop oracle L fuel af e id
+    {| k_cur := []; k_state := MInit; k_sel := zlit (1 + session_n_vars (sess ps1)) |} true None
+    (repeat false (1 + match max_argument_id L af with Some m => m | None => 0 end)) ps2
+    = Done (k, result, acc_b, ref_b, ext) ps3 ->
+  (result = false /\ exists X, ext = Some X /\ pr (af_of af) X /\ NoDup X /\ ~ In id X) \/
+  (result = true /\ ext = None /\ forall P, pr (af_of af) P -> In id P).
+Proof.
+  intros [Ht Hinv Hz Hcv (dv & atk & H1 & H2 & H3 & H4 & H5)] Hsem Hlv Hbd Haf Hid Hs2 E.
+  assert (Hcls : cls ps2 = cls ps1) by (unfold cls; now rewrite Hs2).
+  assert (Hwf : wf (af_of af)) by (rewrite Haf; exact (af_of_wf L leqb leqb_spec _ (fresh_reachable_g os))).
+  assert (Hgr : co (af_of af) (grounded (view_of_fw af)) /\ NoDup (grounded (view_of_fw af))).
+  { rewrite Haf. destruct (grounded_store L leqb leqb_spec _ (fresh_reachable_g os)) as [[Hco _] Hnd]. split; assumption. }
+  assert (Hlive : has af id = true) by (eapply (get_argument_live L leqb leqb_spec); eassumption).
+  refine (pr_loop_spec af e (cls ps1) (1 + session_n_vars (sess ps1)) id dv atk Ht Hinv Hz Hcv H2 H3 H4 H5 Hsem _ _ Hwf Hgr _
+            fuel _ true None _ ps2 k result acc_b ref_b ext ps3 [] _ _ _ _ E).
+  - intros x Hx. specialize (Hlv x Hx). lia.
+  - replace (1 + session_n_vars (sess ps1) - 1) with (session_n_vars (sess ps1)) by lia. exact Hbd.
+  - lia.
+  - unfold linv. cbn [k_sel k_state]. split; [reflexivity|]. split; [|reflexivity].
+    exists []. rewrite app_nil_r. split; [exact Hcls|constructor].
+  - cbn [k_state]. discriminate.
+  - cbn [k_state]. discriminate.
+  - rewrite repeat_length. pose proof (has_lt L af id Hlive) as Hl.
+    unfold max_argument_id, ls_max_id. destruct (slots (ls af)); cbn [length] in *; lia.
+Qed.
+
+(* ---- cached entries of the preferred solver: the stored set is a preferred extension *)
+Definition pcache_ok (af : fw) (ev : devent L) : Prop :=
+  match ev with
+  | DCred _ _ _ (Some X) | DSkep _ _ _ (Some X) => pr (af_of af) X /\ NoDup X /\ incl X (live_ids L af)
+  | _ => True
+  end.
+Definition PInv (s : dsolver) : Prop :=
+  (forall ev, In ev (trailing (s_buf L s)) -> pcache_ok (s_af L s) ev) /\
+  (trailing (s_buf L s) <> [] -> forall ev, In ev (pending (s_buf L s)) -> is_update_ev L ev = false).
+
+Lemma pushed_PInv (s : dsolver) af buf ev :
+  PInv s -> af = fold_left ev_apply (pending (s_buf L s)) (s_af L s) ->
+  b_buffer L buf = b_buffer L (s_buf L s) -> b_next L buf = length (b_buffer L (s_buf L s)) ->
+  is_update_ev L ev = false -> pcache_ok af ev ->
+  PInv (pushed_state L s af buf ev).
+Proof.
+  intros [C1 C2] Haf Hb Hn Hev Hok. unfold PInv, pushed_state, DynDefs.trailing, DynDefs.pending, buf_push, buf_with.
+  cbn [s_buf s_af b_buffer b_next]. rewrite Hb, trailing_snoc, Hev. split.
+  - intros ev' [<-|Hin]; [exact Hok|].
+    assert (Hne : trailing (s_buf L s) <> []).
+    { unfold DynDefs.trailing. intros E. rewrite E in Hin. destruct Hin. }
+    rewrite Haf, (fold_no_update L leqb _ _ (C2 Hne)). apply C1. exact Hin.
+  - intros _ ev'. rewrite Hn, skipn_app, skipn_all, Nat.sub_diag. cbn [skipn app]. intros [<-|[]]. exact Hev.
+Qed.
+
+Theorem vreach_PInv thr s ps os : vreach thr KPr s ps os -> PInv s.
+Proof.
+  induction 1 as [ps0 s ps Hn|s ps os o Hr IH|s ps os fuel q cert l s' a ps' Hr IH Hq].
+  - unfold dyn_new in Hn. apply bind_Done in Hn. destruct Hn as (u & ps1 & _ & Hn). apply Done_inj in Hn.
+    destruct Hn as [<- _]. split; cbn [s_buf s_af]; unfold DynDefs.trailing; cbn; [tauto|congruence].
+  - pose proof (vreach_reach L leqb _ _ _ _ _ _ Hr) as Hr'.
+    pose proof (reach_frame_inv L leqb _ _ _ Hr') as [Hkind _ _ _].
+    unfold dyn_update. pose proof (buf_update_spec L leqb (s_buf L s) o) as Hb. cbv zeta in Hb.
+    destruct Hb as (_ & _ & _ & _ & Hcase). rewrite Hkind.
+    destruct (buf_update L leqb (s_buf L s) o) as [b r]. cbn [fst snd] in *.
+    destruct Hcase as [(_ & ev & Hev & Hbf & _)|(_ & ->)]; [|destruct s; exact IH].
+    unfold PInv, DynDefs.trailing. cbn [s_buf s_af]. rewrite Hbf, trailing_snoc, Hev.
+    split; [intros ev' []|congruence].
+  - pose proof (vreach_reach L leqb _ _ _ _ _ _ Hr) as Hr'.
+    pose proof (reach_frame_inv L leqb _ _ _ Hr') as [Hkind _ _ _].
+    destruct (dyn_query_pr_inv' thr fuel s q cert l ps s' a ps' Hkind Hq) as (_ & ans & _ & Hpr).
+    destruct (pr_ds_query_full fuel s l ps s' ans ps' Hpr) as
+      [(b & X & _ & -> & _ & _)|(af & buf & ps1 & Hue & Hrest)]; [exact IH|].
+    destruct (query_ready_pr thr s ps os af buf ps1 Hr Hue) as (e & He & Hrd & Hsem & Hlv & Hbd & Haf & Hbf & Hnx).
+    destruct (update_encoding_spec L leqb _ _ _ _ _ Hue) as (E1 & _). cbn [fst] in E1.
+    destruct (Hrest e He) as (id & ps2 & k & result & acc_b & ref_b & ext & ps3 & acc & refused & Hid & Hs2 & Hloop & -> & _).
+    apply pushed_PInv; auto. cbn [pcache_ok]. destruct ext as [X|]; [|exact I].
+    destruct (pr_search_correct fuel af e ps1 ps2 l id k result acc_b ref_b (Some X) ps3 os Hrd Hsem Hlv Hbd Haf Hid Hs2 Hloop)
+      as [(_ & X' & EX & Hp & Hnd & _)|(_ & EX & _)]; [|discriminate EX].
+    injection EX as <-. split; [exact Hp|]. split; [exact Hnd|]. exact (proj1 (pr_adm _ _ Hp)).
+Qed.
+
+(* ================================================================ Part D *)
+Lemma hit_framework_pr (s : dsolver) os :
+  reach KPr s os -> PInv s -> trailing (s_buf L s) <> [] -> s_af L s = run_ops fresh os.
+Proof.
+  intros Hr [_ C2] Hne. pose proof (reach_frame_inv L leqb _ _ _ Hr) as [Hkind _ Hsy Hsp].
+  unfold DynDefs.synced in Hsy. unfold DynDefs.spec_fw in Hsp. rewrite Hkind in Hsy, Hsp.
+  rewrite (fold_no_update L leqb _ _ (C2 Hne)) in Hsy. congruence.
+Qed.
+
+(* THE FUNCTIONAL THEOREM for the dynamic preferred solver *)
+Theorem pr_functional thr s ps os fuel cert l id s' b c ps' :
+  vreach thr KPr s ps os ->
+  get_argument (run_ops fresh os) l = Some id ->
+  dyn_query oracle L leqb thr fuel s QDS cert l ps = Done (s', (b, c)) ps' ->
+  answer_ok PR false cert (af_of (run_ops fresh os)) id (b, c).
+Proof.
+  intros Hv Hl Hq.
+  pose proof (vreach_reach L leqb _ _ _ _ _ _ Hv) as Hr.
+  pose proof (reach_frame_inv L leqb _ _ _ Hr) as [Hkind _ _ _].
+  pose proof (vreach_PInv thr s ps os Hv) as Hpi.
+  destruct (dyn_query_pr_inv' thr fuel s QDS cert l ps s' (b, c) ps' Hkind Hq) as (_ & ans & -> & Hpr).
+  apply answer_ok_strip.
+  destruct (pr_ds_query_full fuel s l ps s' ans ps' Hpr) as
+    [(b0 & X & Hhit & _ & -> & _)|(af & buf & ps1 & Hue & Hrest)].
+  - (* served from the cache *)
+    pose proof Hhit as Hhit'. unfold is_skep in Hhit'.
+    destruct (skep_scan_hit L leqb _ _ _ _ Hhit') as (_ & ev & Hin & acc & refused & Hev & _).
+    fold (trailing (s_buf L s)) in Hin.
+    pose proof (hit_framework_pr s os Hr Hpi (trailing_ne L s ev Hin)) as Haf.
+    destruct (pr_cache_sound L leqb leqb_spec s os l b0 X Hr Hhit) as [-> Hnot].
+    rewrite Haf in Hnot. specialize (Hnot id Hl).
+    pose proof (proj1 Hpi ev Hin) as Hok. rewrite Haf in Hok.
+    assert (G : pr (af_of (run_ops fresh os)) X /\ NoDup X /\ incl X (live_ids L (run_ops fresh os))).
+    { destruct Hev as [-> | ->]; exact Hok. }
+    destruct G as (K1 & K2 & K3). split; cbn [fst snd].
+    + split; [discriminate|]. intros Hsk. destruct (Hsk X K1) as (a & [<-|[]] & Ha). contradiction.
+    + auto 7.
+  - destruct (query_ready_pr thr s ps os af buf ps1 Hv Hue) as (e & He & Hrd & Hsem & Hlv & Hbd & Haf & _).
+    destruct (Hrest e He) as (id' & ps2 & k & result & acc_b & ref_b & ext & ps3 & acc & refused & Hid & Hs2 & Hloop & _ & ->).
+    assert (id' = id) by (rewrite Haf in Hid; congruence). subst id'.
+    destruct (pr_search_correct fuel af e ps1 ps2 l id k result acc_b ref_b ext ps3 os Hrd Hsem Hlv Hbd Haf Hid Hs2 Hloop)
+      as [(-> & X & -> & Hp & Hnd & Hn)|(-> & -> & Hall)]; rewrite Haf in *; split; cbn [fst snd].
+    + split; [discriminate|]. intros Hsk. destruct (Hsk X Hp) as (a & [<-|[]] & Ha). contradiction.
+    + split; [reflexivity|]. split; [reflexivity|]. split; [exact Hp|]. split; [exact Hnd|].
+      split; [exact (proj1 (pr_adm _ _ Hp))|exact Hn].
+    + split; [intros _|reflexivity]. intros P HP. exists id. split; [left; reflexivity|apply Hall, HP].
+    + reflexivity.
+Qed.
+
 End Pref.
